@@ -24,8 +24,12 @@ def optOrdShort : Option Ord → String
   | none => "-" | some o => o.short
 
 /-- the record passed to the k-th `write`: every cell names k, so mixtures are recognisable;
-    cell 6 holds the status code (only 0..2 are valid enum values) -/
-def recCells (k : Nat) : List Nat := (List.range 6).map (fun i => k * 8 + i + 1) ++ [k % 3]
+    cell 6 holds the status code (only 0..2 are valid enum values).
+    Record number k; every seventh one (k % 7 = 3) has the shape of what a freshly restarted daemon
+    publishes before chronyd has answered: as-of 0/0, void-after 1000/0, bound 0, status Unknown -/
+def recCells (k : Nat) : List Nat :=
+  if k % 7 = 3 then [0, 0, 1000, 0, 0, k, 0]
+  else (List.range 6).map (fun i => k * 8 + i + 1) ++ [k % 3]
 
 def zeros : List Nat := List.replicate N 0
 
